@@ -370,3 +370,163 @@ Proof.
         -- destruct Hi as [Hd _]. rewrite A2 in Hd. discriminate.
       * rewrite mhandles_upd. rewrite (rf_handles _ _ _ _ F3). rewrite Hh3. exact Hs.
 Qed.
+
+(* ---------- Open / Stat / Chmod / Chown / Chtimes ---------- *)
+Lemma F2_len {A B} (R : A -> B -> Prop) l1 l2 : Forall2 R l1 l2 -> length l1 = length l2.
+Proof. induction 1; cbn; congruence. Qed.
+Lemma handles_len s t : Rsim s t -> length (mhandles s) = length (phandles t).
+Proof. intros R. apply (F2_len _ _ _ (rs_handles _ _ R)). Qed.
+
+Lemma Rsim_alloc_handle s t h x : Rsim s t -> hrel2 h x ->
+  Rsim (fst (alloc_handle s h)) (mkP (ptree t) (pinodes t) (phandles t ++ [x])).
+Proof.
+  intros [W T N H Hs] Hx. split; auto.
+  - now apply WF_alloc_handle.
+  - cbn. now apply handles_alloc.
+Qed.
+
+Lemma sim_open s t p : Rsim s t -> sim_raw s t (Open p).
+Proof.
+  intros R. unfold sim_raw. cbn [m_step_raw p_step]. unfold m_open. set (k := normalize_path p).
+  destruct (lookup s k) as [f|] eqn:Hl.
+  - destruct (rel_node s t k f R Hl) as (n & x & _ & Hp & _). rewrite Hp. unfold popen, alloc_handle. cbn [fst snd mproj].
+    split; [|now rewrite (handles_len s t R)].
+    refine (Rsim_alloc_handle s t (mkH f 0 0 false true) (mkPH f 0 0 false true) R _). repeat split.
+  - destruct (rel_none s t k R Hl) as [Hp _]. rewrite Hp. split; [exact R | reflexivity].
+Qed.
+
+Lemma zlen_to_nat {A} (l : list A) : Z.to_nat (zlen l) = length l.
+Proof. unfold zlen. apply Nat2Z.id. Qed.
+
+Lemma sim_stat s t p : Rsim s t -> sim_raw s t (Stat p).
+Proof.
+  intros R. unfold sim_raw. cbn [m_step_raw p_step]. unfold m_stat. set (k := normalize_path p).
+  destruct (lookup s k) as [f|] eqn:Hl.
+  - destruct (rel_node s t k f R Hl) as (n & x & Hn & Hp & _ & Hx & Hi). rewrite Hn, Hx. cbn [fst snd mproj finfo_of fi_dir fi_size].
+    destruct x as [pm|d pm]; cbn in Hi.
+    + destruct Hi as [Hd _]. rewrite Hd. split; [exact R | reflexivity].
+    + destruct Hi as (Hd & Hdat & _). rewrite Hd, Hdat, zlen_to_nat. split; [exact R | reflexivity].
+  - destruct (rel_none s t k R Hl) as [_ Hx]. rewrite Hx. split; [exact R | reflexivity].
+Qed.
+
+Lemma Rsim_core s t r g : Rsim s t -> keeps_shape g -> (forall m, core (g m) = core m) -> Rsim (upd_node s r g) t.
+Proof.
+  intros [W T N H Hs] Hk Hg. split.
+  - now apply WF_attr.
+  - intros k. rewrite lookup_upd. apply T.
+  - exact N.
+  - apply heap_rel_upd; [exact H|]. intros n x _ _. apply irel_core. apply Hg.
+  - now rewrite mhandles_upd.
+Qed.
+
+Lemma sim_chown s t p u g : Rsim s t -> sim_raw s t (Chown p u g).
+Proof.
+  intros R. unfold sim_raw. cbn [m_step_raw p_step]. unfold m_chown. set (k := normalize_path p).
+  destruct (lookup s k) as [f|] eqn:Hl.
+  - destruct (rel_node s t k f R Hl) as (n & x & _ & Hp & _). rewrite Hp. cbn [fst snd mproj].
+    split; [|reflexivity]. apply Rsim_core; [exact R | apply keeps_owner | reflexivity].
+  - destruct (rel_none s t k R Hl) as [Hp _]. rewrite Hp. split; [exact R | reflexivity].
+Qed.
+
+Lemma sim_chtimes s t p tm : Rsim s t -> sim_raw s t (Chtimes p tm).
+Proof.
+  intros R. unfold sim_raw. cbn [m_step_raw p_step]. unfold m_chtimes. set (k := normalize_path p).
+  destruct (lookup s k) as [f|] eqn:Hl.
+  - destruct (rel_node s t k f R Hl) as (n & x & _ & Hp & _). rewrite Hp. cbn [fst snd mproj].
+    split; [|reflexivity]. apply Rsim_core; [exact R | apply keeps_mtime | reflexivity].
+  - destruct (rel_none s t k R Hl) as [Hp _]. rewrite Hp. split; [exact R | reflexivity].
+Qed.
+
+(* one node and its inode change together, everything else stays *)
+Lemma Rsim_set s t r g x : Rsim s t -> keeps_shape g ->
+  (forall n, get_node s r = Some n -> irel (g n) x) -> Rsim (upd_node s r g) (set_inode t r x).
+Proof.
+  intros [W T N H Hs] Hk Hg. split.
+  - now apply WF_attr.
+  - intros k. rewrite lookup_upd. apply T.
+  - exact N.
+  - now apply heap_rel_set.
+  - now rewrite mhandles_upd.
+Qed.
+
+Lemma sim_chmod s t p m : Rsim s t -> wf_op s (Chmod p m) = true -> sim_raw s t (Chmod p m).
+Proof.
+  intros R Hwf. unfold sim_raw. cbn [m_step_raw p_step]. unfold m_chmod. set (k := normalize_path p).
+  cbn [wf_op] in Hwf. apply andb_true_iff in Hwf as [Hn _]. assert (Hc : canon k) by now apply canon_normalize.
+  destruct (lookup s k) as [f|] eqn:Hl.
+  - destruct (rel_node s t k f R Hl) as (n & x & Hn' & Hp & _ & Hx & Hi). rewrite Hp, Hx, Hn'.
+    rewrite (set_file_mode_canon s k _ f Hc Hl).
+    destruct x as [pm|d pm]; cbn [fst snd mproj]; (split; [|reflexivity]); apply Rsim_set; auto using keeps_mode;
+      intros n0 Hn0; rewrite Hn' in Hn0; inversion Hn0; subst n0; cbn in Hi |- *.
+    + destruct Hi as [Hd _]. split; [exact Hd | apply perm_bits_chmod].
+    + destruct Hi as (Hd & Hdat & _). repeat split; auto. intros p0 E. inversion E. apply perm_bits_chmod.
+  - destruct (rel_none s t k R Hl) as [Hp _]. rewrite Hp. split; [exact R | reflexivity].
+Qed.
+
+(* ---------- a new leaf ---------- *)
+Lemma Rsim_leaf s t s' k n0 n' x ph :
+  Rsim s t -> WF s' -> mdata s' = mdata (put_new s k n0) -> length (mheap s') = S (length (mheap s)) ->
+  (forall r n2, (r < length (mheap s))%nat -> get_node s' r = Some n2 -> exists n, get_node s r = Some n /\ core n2 = core n) ->
+  get_node s' (length (mheap s)) = Some n' -> irel n' x ->
+  Forall2 hrel2 (mhandles s') ph ->
+  Rsim s' (mkP (ptree (padd t k x)) (pinodes (padd t k x)) ph).
+Proof.
+  intros [W T N H Hs] W' Hd Hlen Hold Hnew Hi Hh. split.
+  - exact W'.
+  - intros k'. unfold lookup. rewrite Hd. fold (lookup (put_new s k n0) k'). apply (tree_rel_new s t k n0 x H T).
+  - unfold padd. cbn [ptree]. now apply nodup_set.
+  - apply (heap_rel_mheap s' s' (padd t k x)); [reflexivity | reflexivity|]. eapply heap_rel_leaf; eauto.
+  - exact Hh.
+Qed.
+
+Lemma leaf_old_nodes s k n0 q g r n2 :
+  (forall m, core (g m) = core m) -> (r < length (mheap s))%nat ->
+  get_node (upd_node (put_new s k n0) q g) r = Some n2 -> exists n, get_node s r = Some n /\ core n2 = core n.
+Proof.
+  intros Hg Hlt Hn2. rewrite get_upd in Hn2. destruct (Nat.eqb q r) eqn:E.
+  - apply Nat.eqb_eq in E. subst r. rewrite get_put_new_old in Hn2 by exact Hlt.
+    destruct (get_node s q) as [n|]; [|discriminate]. cbn in Hn2. inversion Hn2; subst n2. exists n. auto.
+  - rewrite get_put_new_old in Hn2 by exact Hlt. exists n2. auto.
+Qed.
+
+Lemma leaf_new_node s k n0 q g : (q < length (mheap s))%nat ->
+  get_node (upd_node (put_new s k n0) q g) (length (mheap s)) = Some n0.
+Proof.
+  intros Hq. rewrite get_upd. assert (E : Nat.eqb q (length (mheap s)) = false) by (apply Nat.eqb_neq; lia).
+  rewrite E. apply get_put_new_new.
+Qed.
+
+Lemma leaf_len s k n0 q g : length (mheap (upd_node (put_new s k n0) q g)) = S (length (mheap s)).
+Proof. rewrite mheap_upd_len. unfold put_new, alloc_node, set_data. cbn [mheap]. rewrite app_length. cbn. lia. Qed.
+
+(* ---------- Create ---------- *)
+Lemma sim_create s t p : Rsim s t -> wf_op s (Create p) = true -> sim_raw s t (Create p).
+Proof.
+  intros R Hwf. pose proof R as [W T N H Hs]. unfold sim_raw.
+  pose proof (WF_create s p W Hwf) as W'. cbn [m_step_raw p_step] in *.
+  cbn [wf_op] in Hwf. apply andb_true_iff in Hwf as [Hn Hwf].
+  set (k := normalize_path p) in *. assert (Hc : canon k) by now apply canon_normalize.
+  unfold m_create in *. fold k in W' |- *.
+  destruct (lookup s k) as [f|] eqn:Hl.
+  - destruct (rel_node s t k f R Hl) as (n & x & Hgn & Hp & _ & Hx & Hi).
+    unfold kind_at in Hwf. rewrite Hl, Hgn in Hwf. destruct (ndir n) eqn:Hd; [discriminate|].
+    rewrite Hgn, Hd in *. rewrite Hp, Hx. destruct x as [pm|d pm]; cbn in Hi; [destruct Hi; congruence|].
+    unfold popen, alloc_handle. cbn [fst snd mproj phandles set_inode]. split; [|now rewrite mhandles_upd, (handles_len s t R)].
+    refine (Rsim_alloc_handle _ (set_inode t f (IFile [] pm)) (mkH f 0 0 false false) (mkPH f 0 0 false false) _ _); [|repeat split].
+    apply Rsim_set; [exact R | apply (keeps_comp (with_mtime _) (with_data _)); [apply keeps_mtime | apply keeps_data] |].
+    intros n0 Hn0. rewrite Hgn in Hn0. inversion Hn0; subst n0. cbn. destruct Hi as (_ & _ & Hpm). auto.
+  - destruct (rel_none s t k R Hl) as [Hp Hx]. rewrite Hp.
+    assert (Hk : kind_at s k = None) by (unfold kind_at; now rewrite Hl). rewrite Hk in Hwf.
+    rewrite <- (rel_is_dir s t _ R). change (pparent k) with (par k). rewrite Hwf.
+    rewrite m_create_node_eq in *.
+    destruct (reg_new_present s k (new_file k (mclock s)) 0 W Hc Hl) as (q & Hq & Ereg & _); auto.
+    rewrite Ereg in *. unfold popen, alloc_handle in *. cbn [fst snd mproj] in *.
+    split; [|rewrite mhandles_upd; cbn [mhandles put_new alloc_node set_data phandles padd]; now rewrite (handles_len s t R)].
+    eapply (Rsim_leaf s t _ k (new_file k (mclock s)) (new_file k (mclock s)) (IFile [] None)); eauto.
+    + cbn [mdata]. now rewrite mdata_upd.
+    + cbn [mheap]. apply leaf_len.
+    + intros r n2 Hlt Hn2. apply (leaf_old_nodes s k (new_file k (mclock s)) q (set_kid k (length (mheap s))) r n2); auto.
+    + apply (leaf_new_node s k (new_file k (mclock s)) q). eapply GWF_lt; eauto.
+    + cbn. repeat split. intros p0 E. discriminate.
+    + cbn [mhandles]. rewrite mhandles_upd. apply handles_alloc; [exact Hs|]. unfold hrel2. cbn. rewrite (proj1 H). repeat split.
+Qed.
